@@ -117,7 +117,11 @@ impl<'de, R: Reader<'de>> Deserializer<R> {
     where
         T: de::Deserialize<'de>,
     {
-        de::Deserialize::deserialize(self)
+        let value = tri!(de::Deserialize::deserialize(&mut *self));
+        // strings that are skipped or parsed by the DOM parser are not checked one by one:
+        // make sure that the consumed document does not contain invalid UTF-8.
+        tri!(self.parser.check_invalid_utf8(self.parser.cfg.utf8_lossy));
+        Ok(value)
     }
 
     /// Convert Deserializer to a [`StreamDeserializer`].
